@@ -354,6 +354,63 @@ func (g *G) QueryFor(m string) string {
 	return g.Query()
 }
 
+// DerivedReads lists EVERY read accessor whose answer depends on what the mutator line `m` writes (derived ones
+// included: size / hash / is-contract of code, existence / emptiness of the account, committed view of a slot …).
+// A memo an accessor fills while the mutation is in place is only visible if that accessor is asked inside the
+// reverted region and again after the revert.
+func (g *G) DerivedReads(m string) []string {
+	f := strings.Fields(m)
+	if len(f) < 2 {
+		return nil
+	}
+	a := f[1]
+	acct := []string{"exist " + a, "empty " + a}
+	switch f[0] {
+	case "setnonce", "incnonce":
+		return append([]string{"nonce " + a}, acct...)
+	case "setdata", "setstate", "setstorage":
+		if len(f) < 3 {
+			return acct
+		}
+		rs := []string{"getdata " + a + " " + f[2], "allrefund " + a}
+		if len(f[2]) == 64 {
+			rs = append(rs, "getstate "+a+" "+f[2], "committed "+a+" "+f[2])
+		}
+		return append(rs, acct...)
+	case "setcode":
+		return append([]string{"code " + a, "codesize " + a, "codehash " + a, "iscontract " + a}, acct...)
+	case "suicide":
+		return append([]string{"suicided " + a, "bal " + a}, acct...)
+	case "create":
+		return append([]string{"nonce " + a, "codehash " + a, "codesize " + a}, acct...)
+	case "addbal", "subbal", "setbal":
+		return []string{"bal " + a, "cantransfer " + a + " 1"}
+	case "transfer":
+		if len(f) > 2 {
+			return []string{"bal " + a, "bal " + f[2], "cantransfer " + f[2] + " 1"}
+		}
+	case "addft", "subft", "setft":
+		if len(f) > 2 {
+			return append([]string{"getft " + a + " " + f[2], "getdata " + a + " " + f[2], "allrefund " + a}, acct...)
+		}
+	case "aladdr":
+		return []string{"inal " + a}
+	case "alslot":
+		if len(f) > 2 {
+			return []string{"inalslot " + a + " " + f[2], "inal " + a}
+		}
+	case "tset":
+		if len(f) > 2 {
+			return []string{"tget " + a + " " + f[2]}
+		}
+	case "addrefund", "subrefund":
+		return []string{"refund"}
+	case "addlog":
+		return []string{"logs " + strings.Repeat("00", 32)}
+	}
+	return nil
+}
+
 // Query returns one reader line.
 func (g *G) Query() string {
 	r := g.r
@@ -409,7 +466,14 @@ func (g *G) AllQueries() []string {
 	u := g.u
 	for _, a := range u.addrs {
 		h := hx.Hex(a[:])
-		qs = append(qs, "exist "+h, "nonce "+h, "suicided "+h, "code "+h, "codesize "+h, "codehash "+h, "bal "+h, "inal "+h, "empty "+h)
+		qs = append(qs, "exist "+h, "nonce "+h, "suicided "+h, "code "+h, "codesize "+h, "codehash "+h, "iscontract "+h, "bal "+h,
+			"cantransfer "+h+" 1", "inal "+h, "empty "+h)
+		for _, k := range u.keys32 {
+			qs = append(qs, "getstate "+h+" "+hx.Hex(k))
+		}
+		for _, k := range u.ftkeys {
+			qs = append(qs, "getft "+h+" "+hx.Hex(k))
+		}
 		for _, k := range u.keys {
 			qs = append(qs, "getdata "+h+" "+hx.Hex(k))
 		}
